@@ -3,25 +3,27 @@
 
     This file covers the part of the grammar for which [parse (print ds) = Ok (elaborate ds)] is
     PROVED (Dbc/RoundTrip.v): the kinds VERSION, BS_ (all three forms), BU_, BO_ with its SG_ lines
-    (plain / multiplexer switch / multiplexed signals, both byte orders and signs, integer-valued
-    factor / offset / minimum / maximum with optional sign, unit string, one or more receivers) and
+    (plain / multiplexer switch / multiplexed signals, both byte orders and signs, factor / offset /
+    minimum / maximum as decimal literals with optional sign, fraction and exponent, unit string, one
+    or more receivers) and
     unknown lines, in the plain layout: one line per definition (per signal), tokens separated by
     single spaces (none before ':' after the keyword of BS_/BU_, none between '-' and its number),
     LF line ends, every line terminated.  Also covered (one line each, single spaces, terminated by
     " ;"): CM_ (all five object forms), VAL_ (signal and environment variable form), VAL_TABLE_,
     SIG_VALTYPE_ (with and without ':'), BO_TX_BU_ (with and without commas), EV_, ENVVAR_DATA_; their
-    numbers are optionally signed decimal integers, their strings plain.  BA_DEF_ (INT / HEX / FLOAT
+    numbers are decimal literals with optional sign, fraction and exponent, their strings over printable ASCII with the escapes backslash-quote and backslash-character.  BA_DEF_ (INT / HEX / FLOAT
     with and without range, STRING, ENUM; with and without object type), BA_DEF_DEF_ and BA_ (all
     object forms; value typed by the FIRST earlier BA_DEF_ of that name, enum values as string or
-    index; no value when there is no such BA_DEF_).  The remaining kinds and layouts
+    index; no value when there is no such BA_DEF_).  NS_ with its symbol list ("NS_ :" and one line
+    LF TAB symbol per symbol; the only place where a tab occurs).  The remaining kinds and layouts
     of section 4.1 are exercised by the generator of harness/parser/gen.go (which is the executable
     definition of the full class used by the correspondence check).
 
     Numbers are decimal digit strings (bytes '0'..'9'); strings are byte lists. Positions are
     computed from the printed text: the k-th definition starts at line k, column 1, at the byte
     offset given by the lengths of the preceding lines. *)
-From Coq Require Import ZArith List Bool.
-From CanVerif Require Import Dbc.Ast Dbc.Scanner Dbc.DecFloat Dbc.Parser.
+From Coq Require Import ZArith List Bool Lia.
+From CanVerif Require Import Dbc.Ast Dbc.Scanner Dbc.DecFloat Dbc.Parser Dbc.ScanLemmas.
 Import ListNotations.
 Open Scope Z_scope.
 
@@ -34,8 +36,12 @@ Inductive utok :=
 (** multiplexing indicator of a signal: none, "M", "m<digits>" *)
 Inductive smux := MuxNone | MuxSwitch | Muxed (digits : bytes).
 
-(** a number read by ParseFloat: optional '-' directly followed by a decimal literal *)
-Record snum := { n_neg : bool; n_digits : bytes }.
+(** a number read by ParseFloat: optional '-' directly followed by a decimal literal
+    digits [ . digits ] [ (e|E) [+|-] digits ] *)
+Record snum := { n_neg : bool; n_digits : bytes; n_frac : option bytes; n_exp : option (Z * option Z * bytes) }.
+
+(** the literal without its sign *)
+Definition num_lit (n : snum) : bytes := n_digits n ++ frac_text (n_frac n) ++ exp_text (n_exp n).
 
 Record ssignal := {
   ss_name : bytes; ss_mux : smux; ss_start : bytes; ss_size : bytes;
@@ -85,7 +91,8 @@ Inductive sdef :=
 | SEnvVarData (n size : bytes)
 | SAttr (o : sattr_obj) (name : bytes) (body : sattr_body)
 | SAttrDefault (name : bytes) (v : sattr_value)
-| SAttrValue (name : bytes) (o : sobj) (v : sattr_value).
+| SAttrValue (name : bytes) (o : sobj) (v : sattr_value)
+| SNewSymbols (syms : list bytes).                        (* NS_ : then one line LF TAB symbol per symbol *)
 
 Definition print_utok (t : utok) : bytes :=
   match t with
@@ -97,7 +104,7 @@ Definition print_utok (t : utok) : bytes :=
 (** [sp_list f xs] = each item preceded by one space *)
 Definition sp_list {A} (f : A -> bytes) (xs : list A) : bytes := concat (map (fun x => 32 :: f x) xs).
 
-Definition print_num (n : snum) : bytes := (if n_neg n then [45] else []) ++ n_digits n.
+Definition print_num (n : snum) : bytes := (if n_neg n then [45] else []) ++ num_lit n.
 
 Definition print_mux (m : smux) : bytes :=
   match m with
@@ -166,8 +173,12 @@ Definition print_attr_value (v : sattr_value) : bytes :=
   | AVEnumIndex i => 32 :: i
   end.
 
+(** the symbol lines of NS_: TAB symbol LF each *)
+Definition ns_text (syms : list bytes) : bytes := concat (map (fun s => 9 :: s ++ [10]) syms).
+
 Definition print_def (d : sdef) : bytes :=
   match d with
+  | SNewSymbols syms => kw_new_symbols ++ 32 :: 58 :: 10 :: ns_text syms
   | SAttr o name body => kw_attribute ++ print_attr_obj o ++ 32 :: print_quoted name ++ print_attr_body body ++ 32 :: 59 :: [10]
   | SAttrDefault name v => kw_attribute_default ++ 32 :: print_quoted name ++ print_attr_value v ++ 32 :: 59 :: [10]
   | SAttrValue name o v =>
@@ -206,7 +217,7 @@ Definition uint_value (ds : bytes) : Z := fold_left (fun acc c => acc * 10 + (c 
 
 (** float64 bits of a number: the correctly rounded conversion of the digits ([parse_float]), sign applied *)
 Definition num_bits (n : snum) : Z :=
-  match parse_float (n_digits n) with
+  match parse_float (num_lit n) with
   | Some b => if n_neg n then b64_neg b else b
   | None => 0
   end.
@@ -232,10 +243,22 @@ Fixpoint elab_signals (line off : Z) (sigs : list ssignal) : list signal_def :=
 Definition message_header (i n sz tx : bytes) : bytes :=
   kw_message ++ 32 :: i ++ 32 :: n ++ 32 :: 58 :: 32 :: sz ++ 32 :: tx ++ [10].
 
-(** number of lines a printed definition occupies *)
+(** line ends inside a string literal, and the value the parser reads for a literal that contains
+    them: each line end becomes one space (parser.go, string()) *)
+Fixpoint nl_count (s : bytes) : Z :=
+  match s with
+  | [] => 0
+  | c :: t => (if c =? 10 then 1 else 0) + nl_count t
+  end.
+
+Definition str_val (s : bytes) : bytes := map (fun c => if c =? 10 then 32 else c) s.
+
+(** number of lines a printed definition occupies (a CM_ text may continue over several lines) *)
 Definition def_lines (d : sdef) : Z :=
   match d with
   | SMessage _ _ _ _ sigs => 1 + Z.of_nat (length sigs)
+  | SNewSymbols syms => 1 + Z.of_nat (length syms)
+  | SComment _ t => 1 + nl_count t
   | _ => 1
   end.
 
@@ -257,7 +280,7 @@ Definition access_of (a : Z) : access_type :=
 
 (** int64 of a number read by Parser.int: ParseFloat, int64 conversion with clamps, sign applied *)
 Definition num_int (n : snum) : Z :=
-  match parse_float (n_digits n) with
+  match parse_float (num_lit n) with
   | Some b => let i := int64_of_b64 b in if n_neg n then neg64 i else i
   | None => 0
   end.
@@ -308,6 +331,7 @@ Definition elab_attr_value (ctx : actx) (name : bytes) (v : sattr_value) : Z * Z
 Definition elab_def (line off : Z) (d : sdef) : def :=
   let p := {| p_line := line; p_column := 1; p_offset := off |} in
   match d with
+  | SNewSymbols syms => DNewSymbols p syms
   | SAttr o name body =>
     DAttribute {| ad_pos := p; ad_object := attr_obj_type o; ad_name := name; ad_type := attr_body_type body;
                   ad_min_int := (match body with ABInt _ (Some (a, _)) => num_int a | _ => 0 end);
@@ -322,11 +346,11 @@ Definition elab_def (line off : Z) (d : sdef) : def :=
   | SComment o t =>
     DComment
       match o with
-      | ObjNone => {| cm_pos := p; cm_object := OtUnspecified; cm_node := []; cm_message_id := 0; cm_signal := []; cm_envvar := []; cm_comment := t |}
-      | ObjNode n => {| cm_pos := p; cm_object := OtNode; cm_node := n; cm_message_id := 0; cm_signal := []; cm_envvar := []; cm_comment := t |}
-      | ObjMessage i => {| cm_pos := p; cm_object := OtMessage; cm_node := []; cm_message_id := msgid i; cm_signal := []; cm_envvar := []; cm_comment := t |}
-      | ObjSignal i n => {| cm_pos := p; cm_object := OtSignal; cm_node := []; cm_message_id := msgid i; cm_signal := n; cm_envvar := []; cm_comment := t |}
-      | ObjEnvVar n => {| cm_pos := p; cm_object := OtEnvVar; cm_node := []; cm_message_id := 0; cm_signal := []; cm_envvar := n; cm_comment := t |}
+      | ObjNone => {| cm_pos := p; cm_object := OtUnspecified; cm_node := []; cm_message_id := 0; cm_signal := []; cm_envvar := []; cm_comment := str_val t |}
+      | ObjNode n => {| cm_pos := p; cm_object := OtNode; cm_node := n; cm_message_id := 0; cm_signal := []; cm_envvar := []; cm_comment := str_val t |}
+      | ObjMessage i => {| cm_pos := p; cm_object := OtMessage; cm_node := []; cm_message_id := msgid i; cm_signal := []; cm_envvar := []; cm_comment := str_val t |}
+      | ObjSignal i n => {| cm_pos := p; cm_object := OtSignal; cm_node := []; cm_message_id := msgid i; cm_signal := n; cm_envvar := []; cm_comment := str_val t |}
+      | ObjEnvVar n => {| cm_pos := p; cm_object := OtEnvVar; cm_node := []; cm_message_id := 0; cm_signal := []; cm_envvar := n; cm_comment := str_val t |}
       end
   | SValues (Some i) n vs =>
     DValueDescriptions {| vs_pos := p; vs_object := OtSignal; vs_message_id := msgid i; vs_signal := n; vs_envvar := [];
@@ -389,6 +413,56 @@ Definition elaborate (ds : list sdef) : list def := elab_from [] 1 0 ds.
     and the backslash (92) *)
 Definition plain_char (c : Z) : Prop := 32 <= c < 127 /\ c <> 34 /\ c <> 92.
 
+(** string contents of the covered class: plain characters, the escaped quote (backslash, quote), and
+    a backslash followed by a plain character (the parser keeps all of them verbatim) *)
+Inductive str_ok : bytes -> Prop :=
+| str_nil : str_ok []
+| str_plain : forall c s, plain_char c -> str_ok s -> str_ok (c :: s)
+| str_esc_quote : forall s, str_ok s -> str_ok (92 :: 34 :: s)
+| str_esc : forall c s, plain_char c -> str_ok s -> str_ok (92 :: c :: s).
+
+(** string bodies that may also contain line ends (used for the text of CM_): plain characters,
+    line ends, the escaped quote, and a backslash followed by anything that is not a quote (the
+    backslash is then an ordinary character) *)
+Inductive str_okn : bytes -> Prop :=
+| strn_nil : str_okn []
+| strn_plain : forall c s, plain_char c -> str_okn s -> str_okn (c :: s)
+| strn_nl : forall s, str_okn s -> str_okn (10 :: s)
+| strn_esc_quote : forall s, str_okn s -> str_okn (92 :: 34 :: s)
+| strn_esc : forall c s, c <> 34 -> str_okn (c :: s) -> str_okn (92 :: c :: s).
+
+Lemma str_ok_okn : forall s, str_ok s -> str_okn s.
+Proof.
+  intros s H. induction H.
+  - constructor.
+  - apply strn_plain; assumption.
+  - apply strn_esc_quote; assumption.
+  - apply strn_esc; [destruct H as (_ & H & _); exact H|apply strn_plain; assumption].
+Qed.
+
+Lemma str_ok_no_nl : forall s, str_ok s -> nl_count s = 0 /\ str_val s = s.
+Proof.
+  intros s H. unfold str_val. induction H as [|c s Hc _ (IH1 & IH2)|s _ (IH1 & IH2)|c s Hc _ (IH1 & IH2)]; cbn [nl_count map].
+  - split; reflexivity.
+  - assert (E : (c =? 10) = false) by (apply Z.eqb_neq; destruct Hc; lia). rewrite E, IH1, IH2. split; reflexivity.
+  - change (92 =? 10) with false. change (34 =? 10) with false. cbv iota. rewrite IH1, IH2. split; reflexivity.
+  - assert (E : (c =? 10) = false) by (apply Z.eqb_neq; destruct Hc; lia). change (92 =? 10) with false. cbv iota.
+    rewrite E, IH1, IH2. split; reflexivity.
+Qed.
+
+Fixpoint str_okb_aux (n : nat) (s : bytes) : bool :=
+  match n with
+  | O => false
+  | S n' =>
+    match s with
+    | [] => true
+    | 92 :: 34 :: t => str_okb_aux n' t
+    | 92 :: c :: t => (32 <=? c) && (c <? 127) && negb (c =? 34) && negb (c =? 92) && str_okb_aux n' t
+    | c :: t => (32 <=? c) && (c <? 127) && negb (c =? 34) && negb (c =? 92) && str_okb_aux n' t
+    end
+  end.
+Definition str_okb (s : bytes) : bool := str_okb_aux (S (length s)) s.
+
 (** decimal literal without leading zeros (text/scanner reads a leading 0 as octal), value < 2^64 *)
 Definition wf_digits (ds : bytes) : Prop :=
   exists d0 t, ds = d0 :: t /\ is_decimal d0 = true /\ Forall (fun a => is_decimal a = true) t /\ (d0 <> 48 \/ t = []).
@@ -415,8 +489,10 @@ Definition wf_utok (t : utok) : Prop :=
   | UPunct c => upunct c
   end.
 
-(** a number: decimal literal without leading zeros that ParseFloat accepts (always, below 310 digits) *)
-Definition wf_num (n : snum) : Prop := wf_digits (n_digits n) /\ parse_float (n_digits n) <> None.
+(** a number: integer part without leading zeros, optional fraction (at least one digit), optional
+    exponent (e or E, optional sign, at least one digit), accepted by ParseFloat (i.e. finite) *)
+Definition wf_num (n : snum) : Prop :=
+  wf_digits (n_digits n) /\ wf_frac (n_frac n) /\ wf_exp (n_exp n) /\ parse_float (num_lit n) <> None.
 
 Definition wf_mux (m : smux) : Prop :=
   match m with
@@ -427,7 +503,7 @@ Definition wf_mux (m : smux) : Prop :=
 Definition wf_signal (s : ssignal) : Prop :=
   ident_valid (ss_name s) = true /\ wf_mux (ss_mux s) /\ wf_uint (ss_start s) /\ wf_uint (ss_size s)
   /\ wf_num (ss_factor s) /\ wf_num (ss_offset s) /\ wf_num (ss_min s) /\ wf_num (ss_max s)
-  /\ Forall plain_char (ss_unit s)
+  /\ str_ok (ss_unit s)
   /\ ident_valid (ss_receiver s) = true /\ Forall (fun r => ident_valid r = true) (ss_receivers s).
 
 Definition wf_msgid (i : bytes) : Prop := wf_uint i /\ msgid_valid (msgid i) = true.
@@ -441,7 +517,7 @@ Definition wf_obj (o : sobj) : Prop :=
   | ObjEnvVar n => ident_valid n = true
   end.
 
-Definition wf_value (v : snum * bytes) : Prop := wf_num (fst v) /\ Forall plain_char (snd v).
+Definition wf_value (v : snum * bytes) : Prop := wf_num (fst v) /\ str_ok (snd v).
 
 (** an enumeration digit: "0" .. "max" *)
 Definition wf_enum (t : bytes) (mx : Z) : Prop := exists d, t = [d] /\ 48 <= d <= 48 + mx.
@@ -453,7 +529,7 @@ Definition wf_attr_body (b : sattr_body) : Prop :=
   match b with
   | ABInt _ r | ABFloat r => wf_range r
   | ABString => True
-  | ABEnum v vs => Forall plain_char v /\ Forall (Forall plain_char) vs
+  | ABEnum v vs => str_ok v /\ Forall str_ok vs
   end.
 
 (** the value form must fit the type of the first BA_DEF_ of that name (none: no value) *)
@@ -461,30 +537,31 @@ Definition wf_attr_value (ctx : actx) (name : bytes) (v : sattr_value) : Prop :=
   match lookup_ctx name ctx, v with
   | None, AVNone => True
   | Some (AtInt, _), AVInt n | Some (AtHex, _), AVInt n | Some (AtFloat, _), AVFloat n => wf_num n
-  | Some (AtString, _), AVString s | Some (AtEnum, _), AVEnumString s => Forall plain_char s
+  | Some (AtString, _), AVString s | Some (AtEnum, _), AVEnumString s => str_ok s
   | Some (AtEnum, vs), AVEnumIndex i => wf_uint i /\ uint_value i < Z.of_nat (length vs)
   | _, _ => False
   end.
 
 Definition wf_sdef (d : sdef) : Prop :=
   match d with
+  | SNewSymbols syms => Forall (fun s => ident_valid s = true) syms
   | SAttr _ name body => ident_valid name = true /\ wf_attr_body body
-  | SAttrDefault name _ => Forall plain_char name
-  | SAttrValue name o _ => Forall plain_char name /\ wf_obj o
-  | SComment o t => wf_obj o /\ Forall plain_char t
+  | SAttrDefault name _ => str_ok name
+  | SAttrValue name o _ => str_ok name /\ wf_obj o
+  | SComment o t => wf_obj o /\ str_okn t
   | SValues (Some i) n vs => wf_msgid i /\ ident_valid n = true /\ Forall wf_value vs
   | SValues None n vs => ident_valid n = true /\ Forall wf_value vs
   | SValueTable n vs => ident_valid n = true /\ Forall wf_value vs
   | SSigValType i n _ t => wf_msgid i /\ ident_valid n = true /\ wf_enum t 2
   | SMsgTx i txs => wf_msgid i /\ Forall (fun x => ident_valid (fst x) = true) txs
   | SEnvVar n t mn mx u init i acc node nodes =>
-    ident_valid n = true /\ wf_enum t 2 /\ wf_num mn /\ wf_num mx /\ Forall plain_char u /\ wf_num init /\ wf_uint i
+    ident_valid n = true /\ wf_enum t 2 /\ wf_num mn /\ wf_num mx /\ str_ok u /\ wf_num init /\ wf_uint i
     /\ 0 <= acc <= 3 /\ ident_valid node = true /\ Forall (fun r => ident_valid r = true) nodes
   | SEnvVarData n sz => ident_valid n = true /\ wf_uint sz
   | SMessage i n sz tx sigs =>
     wf_uint i /\ msgid_valid (uint_value i mod 2 ^ 32) = true /\ ident_valid n = true /\ wf_uint sz
     /\ ident_valid tx = true /\ Forall wf_signal sigs
-  | SVersion s => Forall plain_char s
+  | SVersion s => str_ok s
   | SBitTiming None => True
   | SBitTiming (Some (b, None)) => wf_uint b
   | SBitTiming (Some (b, Some (b1, b2))) => wf_uint b /\ wf_uint b1 /\ wf_uint b2
